@@ -31,6 +31,12 @@ func c11SchedScenarios() []c11Sched {
 		{name: "insert||insert||delete", threads: [][]model.Act{{ins(11, false)}, {ins(12, false)}, {{Op: "del", Off: 0}}}},
 		{name: "failing-insert||insert||insert", threads: [][]model.Act{{ins(11, true)}, {ins(12, false)}, {ins(13, false)}}},
 		{name: "rollback-with-insert||insert", threads: [][]model.Act{{ins(11, false), ins(14, false)}, {ins(12, false), ins(13, false)}}, fails: []bool{true, false}},
+		// an update racing with the delete of its row, then re-use of the offset by an
+		// insert that does not store that column
+		{name: "update-row0||delete-row0||insert-empty", threads: [][]model.Act{
+			{{Op: "put", Off: 0, W: []model.Write{{Col: "v", V: model.Val{N: 99}}}}},
+			{{Op: "del", Off: 0}},
+			{{Op: "insert", W: []model.Write{{Col: "s", V: model.Val{S: "new"}}}}}}},
 		{name: "insert-merge||delete+insert", threads: [][]model.Act{
 			{{Op: "insert", W: []model.Write{{Col: "v", V: model.Val{N: 5}, Merge: true}}}},
 			{{Op: "del", Off: 0}, ins(12, false)}}},
@@ -96,7 +102,31 @@ func (sc c11Sched) instance() *eng.SchedInstance {
 			want := renderBlock(cols, modelRows(m), 0, kinds)
 			got := renderBlock(cols, implRows(w), 0, kinds)
 			if got != want && len(vs) == 0 {
-				vs = append(vs, eng.Violation{Assert: "insert/values-intact", Witness: "rows after concurrent inserts/deletes differ from what the committed transactions stored",
+				wit := "rows after concurrent inserts/deletes differ from what the committed transactions stored"
+				// known pattern: same rows, but a freshly inserted row on a re-used offset
+				// shows an extra value that a concurrent update of the PREVIOUS occupant
+				// committed after that occupant's delete
+				impl, mod := implRows(w), modelRows(m)
+				onlyExtraOnFresh := len(impl) == len(mod)
+				for off, row := range impl {
+					mrow, ok := mod[off]
+					if !ok {
+						onlyExtraOnFresh = false
+						break
+					}
+					for c, v := range mrow {
+						if row[c] != v {
+							onlyExtraOnFresh = false
+						}
+					}
+					if len(row) > len(mrow) && !seen[off] {
+						onlyExtraOnFresh = false
+					}
+				}
+				if onlyExtraOnFresh {
+					wit = "a re-used offset exposes a value that an update of the previous occupant committed after its delete"
+				}
+				vs = append(vs, eng.Violation{Assert: "insert/values-intact", Witness: wit,
 					Detail: fmt.Sprintf("rows {%s}, committed transactions give {%s}", got, want)})
 			}
 			if c := w.C.Count(); c != len(m.Live) {
